@@ -129,6 +129,14 @@ def slots_phase(run, pid):
     for N in ([2, 8, 64, 1024, 65536, 131072, 262144] if run.thorough else [8, 131072, rng.choice([64, 1024, 65536, 262144])]):
         slots = {}; ops = []; exp = [N]
         base = [rng.randrange(0, 4 * N) for _ in range(6)]
+        # systematic part: one write per index bit (sequence 2^b plus a random number of laps), all read back through both
+        # accessors afterwards; a mapping that drops or merges an index bit cannot pass
+        bits = [1 << b for b in range(N.bit_length() - 1)] + [N - 1]
+        for sb in bits:
+            s0 = sb + N * rng.randrange(0, 5); v = rng.randrange(1, 2**40); ops += [0, s0, v]; slots[s0 % N] = v
+        for sb in bits:
+            for opc in (1, 2):
+                s0 = sb + N * rng.randrange(0, 5); ops += [opc, s0, 0]; exp.append(slots.get(s0 % N, 0))
         for _ in range(40):
             s0 = rng.choice(base) + rng.choice([0, 0, N, 2 * N, 65536, 256, 1, 3 * N]) if rng.random() < 0.8 else rng.randrange(0, 2**40)
             if rng.random() < 0.5:
